@@ -115,6 +115,7 @@ Next ==
                  [] ev.e = "parse" -> (IF Focus = "C12" \/ (Focus = "C13" /\ ev.via = "string") THEN Parse(ev) ELSE TRUE)
                  [] ev.e = "frun" -> (IF Focus = "C12" THEN FRun(ev) ELSE TRUE)
                  [] ev.e = "dprint" -> (IF Focus = "C12" THEN DPrint(ev) ELSE TRUE)
+                 [] ev.e = "iprint" -> (IF Focus = "C12" THEN Require(ev.got = ev.want, "an integer is not printed digit-exact") ELSE TRUE)
                  [] ev.e = "fsummary" -> TRUE
 TraceSpec == Init /\ [][Next]_<<l, types>>
 TraceInv == TRUE
